@@ -887,7 +887,12 @@ pub fn gen_c17(seed: u64) -> Plan {
             } else {
                 *b.rng.pick(&b.uni.pool)
             };
-            ops.push(draw_op(&mut b.rng, &b.custom, &b.cwd, &default_abs, ty, (3, 5, 2)));
+            if b.rng.pct(8) {
+                // the string entry point must report the same obstacles as an error too
+                ops.push(Op::ToString { ty });
+            } else {
+                ops.push(draw_op(&mut b.rng, &b.custom, &b.cwd, &default_abs, ty, (3, 5, 2)));
+            }
         }
         threads.push(ops);
     }
